@@ -95,8 +95,20 @@ def rule_raw_outputs(fb, res, rid):
                     if par is not None and par.get("k") == "call" and facts.copy_args(par) is not None:
                         dst, src, ln = facts.copy_args(par)
                         srcn = strip_all_casts(src)
-                        ok = any(y.get("id") == x.get("id") for y in facts.walk(dst)) and srcn.get("k") == "un" and srcn.get("op") == "&" and \
-                            strip_all_casts(srcn["e"]).get("dk") == "local" and const_value(ln) is not None
+                        so = strip_all_casts(srcn["e"]) if srcn.get("k") == "un" and srcn.get("op") == "&" else {}
+                        # a local object, or an object the caller hands in by reference (a `writeHeader(dest, header)` helper): whole objects
+                        # of a record type, whose bytes C20-R1/R2 judge by type
+                        whole = so.get("dk") == "local" or (so.get("dk") == "param" and (so.get("t") or {}).get("k") == "rec")
+                        ok = any(y.get("id") == x.get("id") for y in facts.walk(dst)) and whole and const_value(ln) is not None
+                    elif par is not None and par.get("k") == "call":
+                        # handed on to a function that takes it as an untyped output pointer again: judged there by this same rule
+                        g = fb.resolve_call(par)
+                        args = facts.effective_call(par).get("args", [])
+                        idx = [i for i, a in enumerate(args) if any(y.get("id") == x.get("id") for y in facts.walk(a))]
+                        if g is not None and g.body and len(idx) == 1 and idx[0] < len(g.params):
+                            gt = g.params[idx[0]]["t"]
+                            ok = gt.get("k") == "ptr" and not gt.get("pconst") and (gt.get("pointee") or "") == "void" and \
+                                strip_all_casts(args[idx[0]]).get("id") == x.get("id")
                     if not ok:
                         bad.append(x)
             res.check(not bad, rid, "raw-output:%s:%s" % (f.name.split("::")[-1], prm.get("name")), (bad[0] if bad else f.raw).get("loc"),
@@ -169,7 +181,7 @@ def run(ctx):
                 if src.get("k") == "un" and src.get("op") == "&":
                     obj = strip_all_casts(src["e"])
                     t = obj.get("t") or {}
-                    if obj.get("k") == "ref" and obj.get("dk") == "local":
+                    if obj.get("k") == "ref" and (obj.get("dk") == "local" or (obj.get("dk") == "param" and t.get("k") == "rec")):
                         n2 += 1
                         ln = const_value(c["args"][2])
                         if t.get("k") == "rec":
